@@ -21,6 +21,8 @@ type c06Res struct {
 	Steps    int            `json:"steps"`
 	Outcomes map[string]int `json:"outcomes"`
 	Viols    []Violation    `json:"viols,omitempty"`
+	Viols15  []Violation    `json:"viols15,omitempty"` // C15's oracle at the end of a plan: nothing held, one data file
+	Closed   int            `json:"closed"`            // plans that ended with everything closed (C15's oracle was evaluated)
 	Sample   string         `json:"sample,omitempty"`
 	Infra    string         `json:"infra,omitempty"`
 	TraceOps int            `json:"trace_ops"`
@@ -211,6 +213,22 @@ func c06One(wl Workload, f faultSpec, res *c06Res) {
 			w.closeAll()
 			if w.infra == "" {
 				w.runAll()
+				// C15 after a history with an I/O failure: everything is closed now, so the process holds nothing of
+				// the directory and only the current data file is left (checked before the reopen below, which
+				// would tidy the directory up)
+				res.Closed++
+				if len(res.Viols15) < 4 {
+					fds, maps := storeResources(w.dir)
+					files := dataFiles(w.dir)
+					switch {
+					case len(fds) > 0:
+						res.Viols15 = append(res.Viols15, Violation{Prop: "C15", Sig: "descriptor-leak|after-io-failure|" + f.Kind + "-" + f.Mode, Msg: fmt.Sprintf("%s, fault %s: after catching up and closing collection and store the process still holds descriptors %v", wl.Name, f, fds)})
+					case len(maps) > 0:
+						res.Viols15 = append(res.Viols15, Violation{Prop: "C15", Sig: "mapping-leak|after-io-failure|" + f.Kind + "-" + f.Mode, Msg: fmt.Sprintf("%s, fault %s: after catching up and closing collection and store the process still maps %v", wl.Name, f, maps)})
+					case len(files) > 1 && !w.cfg.KeepFiles:
+						res.Viols15 = append(res.Viols15, Violation{Prop: "C15", Sig: "stale-data-file|after-io-failure|" + f.Kind + "-" + f.Mode, Msg: fmt.Sprintf("%s, fault %s: after catching up and closing collection and store the directory holds %v", wl.Name, f, files)})
+					}
+				}
 				got, oerr := w.openDump(w.dir)
 				switch {
 				case oerr != "":
@@ -248,8 +266,55 @@ func c06Run(j c06Job) (res c06Res) {
 	return
 }
 
+// faultRun is the outcome of running every fault plan of a tier.
+type faultRun struct {
+	tot      c06Res
+	viols    []Violation // C06's oracles
+	viols15  []Violation // C15's end-of-plan oracle
+	infra    int
+	totalIds int
+	names    []string
+	counts   []int
+	samples  []any
+	rc       int
+}
+
 func checkC06(prop, tier string) int {
 	t0 := time.Now()
+	fr := runFaultPlans(tier, nil)
+	if fr.rc != 0 {
+		return fr.rc
+	}
+	tot, infra, samples, names, totalIds, counts := fr.tot, fr.infra, fr.samples, fr.names, fr.totalIds, fr.counts
+	viols := reportViolations("C06", "G3", fr.viols)
+	writeEvidence(&Evidence{PropertyID: "C06", Tier: tier, Violations: len(viols), WallS: time.Since(t0).Seconds(), Assumptions: commonAssumptions,
+		Coverage: map[string]any{
+			"states":                        tot.Steps,
+			"transitions":                   tot.Steps,
+			"traces_validated_against_impl": tot.Plans,
+			"evaluations":                   tot.Plans,
+			"distinct_nontrivial":           tot.Injected,
+			"rule":                          "for every file operation of the fault-free trace of each workload (identity = file, kind, ordinal) x every error kind (write: error / short write with error / short write without error; sync, stat, create, open: error) x burst length, the workload is re-run on the real write path (persister thread retrying, OnError) with that fault plan; oracles after every step; states = steps checked, distinct_nontrivial = plans in which the fault really fired",
+			"samples":                       samples,
+			"exhaustive":                    infra == 0,
+			"workloads":                     names,
+			"operation_identities":          totalIds,
+			"burst_lengths":                 counts,
+			"outcomes":                      tot.Outcomes,
+			"infrastructure_errors":         infra,
+		}})
+	fmt.Fprintf(os.Stderr, "[C06 %s] plans=%d fired=%d steps=%d outcomes=%v violations=%d infra=%d wall=%.1fs\n", tier, tot.Plans, tot.Injected, tot.Steps, tot.Outcomes, len(viols), infra, time.Since(t0).Seconds())
+	if len(viols) > 0 {
+		return 1
+	}
+	if infra > 0 && tot.Plans == 0 {
+		return 2
+	}
+	return 0
+}
+
+// runFaultPlans runs every fault plan of the tier (restricted to the workloads in only, if given).
+func runFaultPlans(tier string, only []int) (fr faultRun) {
 	pool := NewPool()
 	wls := c06Workloads()
 	use := []int{0, 1, 2, 4, 5}
@@ -257,6 +322,9 @@ func checkC06(prop, tier string) int {
 	if tier == "thorough" {
 		use = []int{0, 1, 2, 3, 4, 5, 6}
 		counts = []int{1, 2, 3, -1}
+	}
+	if only != nil {
+		use = only
 	}
 	var jobs []Job
 	var jobWL []int
@@ -266,7 +334,8 @@ func checkC06(prop, tier string) int {
 		var ids []faultSpec
 		if r.Crashed || r.Err != "" || json.Unmarshal(r.Data, &ids) != nil {
 			fmt.Fprintf(os.Stderr, "INFRA: cannot record the fault-free trace of %s: %s %s\n", wls[wi].Name, r.Err, tail(r.Stderr, 400))
-			return 2
+			fr.rc = 2
+			return
 		}
 		totalIds += len(ids)
 		var plans []faultSpec
@@ -338,37 +407,20 @@ func checkC06(prop, tier string) int {
 				viols = append(viols, v)
 			}
 		}
+		tot.Closed += cr.Closed
+		for _, v := range cr.Viols15 {
+			if !seen[v.Sig] {
+				seen[v.Sig] = true
+				fr.viols15 = append(fr.viols15, v)
+			}
+		}
 	}
-	viols = reportViolations("C06", "G3", viols)
 	if len(samples) == 0 {
 		samples = append(samples, "none")
 	}
-	names := []string{}
 	for _, wi := range use {
-		names = append(names, wls[wi].Name)
+		fr.names = append(fr.names, wls[wi].Name)
 	}
-	writeEvidence(&Evidence{PropertyID: "C06", Tier: tier, Violations: len(viols), WallS: time.Since(t0).Seconds(), Assumptions: commonAssumptions,
-		Coverage: map[string]any{
-			"states":                        tot.Steps,
-			"transitions":                   tot.Steps,
-			"traces_validated_against_impl": tot.Plans,
-			"evaluations":                   tot.Plans,
-			"distinct_nontrivial":           tot.Injected,
-			"rule":                          "for every file operation of the fault-free trace of each workload (identity = file, kind, ordinal) x every error kind (write: error / short write with error / short write without error; sync, stat, create, open: error) x burst length, the workload is re-run on the real write path (persister thread retrying, OnError) with that fault plan; oracles after every step; states = steps checked, distinct_nontrivial = plans in which the fault really fired",
-			"samples":                       samples,
-			"exhaustive":                    infra == 0,
-			"workloads":                     names,
-			"operation_identities":          totalIds,
-			"burst_lengths":                 counts,
-			"outcomes":                      tot.Outcomes,
-			"infrastructure_errors":         infra,
-		}})
-	fmt.Fprintf(os.Stderr, "[C06 %s] plans=%d fired=%d steps=%d outcomes=%v violations=%d infra=%d wall=%.1fs\n", tier, tot.Plans, tot.Injected, tot.Steps, tot.Outcomes, len(viols), infra, time.Since(t0).Seconds())
-	if len(viols) > 0 {
-		return 1
-	}
-	if infra > 0 && tot.Plans == 0 {
-		return 2
-	}
-	return 0
+	fr.tot, fr.viols, fr.infra, fr.totalIds, fr.counts, fr.samples = tot, viols, infra, totalIds, counts, samples
+	return
 }
